@@ -131,6 +131,11 @@ func C10(c *Ctx) {
 	if c.Thorough() {
 		nRich = 60
 	}
+	for _, s := range corpus.Fixed() {
+		if s.Name == "action_text" || s.Name == "directive_names" {
+			specs = append(specs, s) // canonical rendering and ';' subsets
+		}
+	}
 	specs = append(specs, corpus.RandomRich(c.Seed, nRich)...)
 	data, pieces := layoutData(specs)
 	eng, err := LoadRepoExtra(map[string]string{"Parser/zz_verif_layout_data.go": data}, "Parser")
@@ -144,7 +149,7 @@ func C10(c *Ctx) {
 		mWS, mC = 3, 3
 	}
 	c.Bound("%d specifications (+ %d random declaration mixes read in canonical rendering and with every subset of optional ';'); at every lexical gap of the canonical rendering (one gap at a time): all strings of <= %d bytes over {space, tab, newline}; a block or line comment with every ASCII body of <= %d bytes; every subset of optional ';' terminators", nGap, nRich, mWS, mC)
-	c.Outside = append(c.Outside, "layout inserted at two gaps at once", "non-ASCII bytes and \\r", "layout inside prologue/action/union bodies (they are content)", "files without the second %%", "the textual shape of the epilogue after the second %% (carried verbatim)")
+	c.Outside = append(c.Outside, "layout inserted at two gaps at once", "non-ASCII bytes and \\r", "layout inside action bodies (they are content); prologue, %union body and epilogue: bodies of up to m bytes over {a,1,_,;,*,space,tab,CR,LF} only", "the textual shape of the epilogue after the second %% (carried verbatim)")
 	replay := ReplaySpec{Kind: "repo", PkgDirs: []string{"Parser"}, Extra: map[string]string{"Parser/zz_verif_layout_data.go": data}}
 	var wg sync.WaitGroup
 	sem := make(chan struct{}, 3)
@@ -160,6 +165,16 @@ func C10(c *Ctx) {
 	for id, s := range specs {
 		run(SymJob{Name: "canonical " + s.Name, Eng: eng, PkgPath: RepoModule + "/Parser", Entry: "VerifCanonical", Args: []int{id}, Replay: replay, Need: []string{"read"}})
 		run(SymJob{Name: "semicolons " + s.Name, Eng: eng, PkgPath: RepoModule + "/Parser", Entry: "VerifSemicolons", Args: []int{id}, Replay: replay})
+		run(SymJob{Name: "no second %% " + s.Name, Eng: eng, PkgPath: RepoModule + "/Parser", Entry: "VerifNoEpilogue", Args: []int{id}, Replay: replay})
+		if id == 0 {
+			// code bodies are content: arbitrary short bodies must be carried over byte for byte
+			for which := 0; which <= 2; which++ {
+				for m := 0; m <= mWS; m++ {
+					run(SymJob{Name: fmt.Sprintf("body %s which=%d m=%d", s.Name, which, m), Eng: eng, PkgPath: RepoModule + "/Parser", Entry: "VerifBodies", Args: []int{id, which, m}, Replay: replay,
+						Key: func(v gosym.Violation) string { return fmt.Sprintf("body:%d:%s", which, v.What) }})
+				}
+			}
+		}
 		if id >= nGap {
 			c.MarkDistinct(s.Name)
 			continue // random declaration mixes: canonical rendering and ';' subsets only
